@@ -672,6 +672,15 @@ def deep_clone(value: Any) -> Any:
     """
     import copy
 
+    # A reference to another property (e.g. the shift a resource group works in) keeps
+    # its identity, and a value that knows how to clone itself does so. A blind deepcopy
+    # of such objects would drag the whole project along through their back references.
+    if hasattr(value, "propertySet"):
+        return value
+    clone = getattr(value, "deep_clone", None)
+    if callable(clone):
+        return clone()
+
     # For lists, check if they contain PropertyTreeNode objects
     if isinstance(value, list):
 
